@@ -24,6 +24,12 @@ import (
 )
 
 func newProcessor(inSchema, outSchema record.Schemas, exprOpt []hybridqp.ExprOptions) (CoProcessor, bool, bool) {
+	return newProcessorWithOrder(inSchema, outSchema, exprOpt, true)
+}
+
+// newProcessorWithOrder: the first/last reducers pick the first/last row of a record by
+// position, so for records delivered in descending time order they are exchanged.
+func newProcessorWithOrder(inSchema, outSchema record.Schemas, exprOpt []hybridqp.ExprOptions, ascending bool) (CoProcessor, bool, bool) {
 	var (
 		initColMata bool
 		callCount   int
@@ -52,6 +58,11 @@ func newProcessor(inSchema, outSchema record.Schemas, exprOpt []hybridqp.ExprOpt
 				}
 				coProcessor.AppendRoutine(routine)
 				continue
+			}
+			if !ascending && name == "first" {
+				name = "last"
+			} else if !ascending && name == "last" {
+				name = "first"
 			}
 			switch name {
 			case "count":
